@@ -3,9 +3,9 @@ import os, re, subprocess
 from . import common as C
 
 MANIFEST = dict(
-   technique="Lean 4 proof (case analysis over the fast paths of ParsePrimitiveStrict against ParsePrimitive, reusing the C10 check-engine theorems; induction over histories of constructor calls, copy-on-write derivations, CloneFrom and entry-point calls on a heap of schemas with per-schema hidden state) + differential correspondence on real string schemas and string histories + in-harness comparison of all six entry points on 21 other schema types, cold and after histories",
-   text="c09_strict_eq_parse proves for the primitive engine path that StrictParse and Parse yield the same verdict, value and issue positions for every check list, every modifier configuration and every input of the strict static type (nil pointers included); checked_ptr_irrelevant shows validatePointer's extra pass cannot change the outcome. c09_history proves that in every history (constructors, any copy-on-write method, CloneFrom of both flavours in both directions, the six entry points called in any order any number of times) every entry point answers what Parse answers on the schema's current configuration, for any implementation whose per-schema state is Faithful (parsing keeps, and every derivation route re-establishes, 'the strict fast-path answer equals the condition recomputed from the schema's own fields'); the pinned code is Faithful, a memoised flag copied by CloneFrom is not (memoising_stale_witness). The model is tied to /repo on String()/StringPtr() schemas with random check chains and modifier suffixes (all six entry points predicted), on histories over families of string schemas run through the Lean history machine, and for 21 further types (ints, floats, bool, time, enum, literal, slice, array, object, strict object, record, map, union, intersection, any, unknown, lazy; bare / with the type's checks / with a refinement) the six entry points are compared with each other on well-typed inputs in the harness, on cold schemas and after histories whose derivation steps are found by reflection; a never-parsed twin separates history-induced disagreements from those of the configuration. Frame lines check by reflection that no field of core.ZodTypeInternals (unexported ones included) changes across a parse and that a derived schema's internals do not depend on earlier parses.",
-   note="Trusted: Lean kernel; axioms propext/Classical.choice/Quot.sound at most; harness + comparer. Only the primitive engine path is modelled; the Faithful hypotheses of c09_history are tied to the code by the frame observation (a change there without a concrete disagreement is reported as a broken tie); ParseComplexStrict and the type-local StrictParse implementations are judged by the statement directly (entry points must agree) and their many deviations are listed as known findings by (type, Parse outcome class, StrictParse outcome class). Pointer identity of results is C15's business and not compared here.",
+   technique="Lean 4 proof (case analysis over the fast paths of ParsePrimitiveStrict against ParsePrimitive, reusing the C10 check-engine theorems; ParseComplexStrict against ParseComplex for arbitrary validators, extractors and transforms; induction over histories of constructor calls, copy-on-write derivations, CloneFrom of both flavours and entry-point calls on a heap of schemas with per-schema hidden state; evaluation of the whole entry-point table) + go/ast translator over types/*.go regenerating the table of how every entry point of every schema type is implemented + differential correspondence on real string schemas, string histories and integer histories + in-harness comparison of all six entry points on every schema type of the table, on well-typed and ill-typed inputs, cold and after histories",
+   text="c09_strict_eq_parse proves for the primitive engine path that StrictParse and Parse yield the same verdict, value and issue positions for every check list, every modifier configuration and every input of the strict static type (nil pointers included). c09_complex_strict_eq_parse proves the same for the complex engine path as it is after 692881a, for every validator, every behaviour of the extractors, every transform and every input, well-typed or not (the legacy function is kept as legacyStrictParse with four witnesses and legacy_not_agreeing). c09_table_as_expected, c09_table_wrappers and c09_table_covered are decided over the whole table regenerated from types/*.go on every run (53 schema types x 6 entry points: which engine function each entry point hands its input to, with which validator, with how many statements in front and behind): on every type ParseAny is 'return z.Parse(input, ctx...)' and each Must variant is the must-wrapper of its base entry point (c09_parseAny_eq_parse_all, c09_must_returns_or_panics say what those shapes do on every input), and every (Parse, StrictParse) pair is the bare engine pair the agreement theorems cover, is inherited from an embedded schema that is, or is a listed type-local implementation with its disposition (finding / compared by the run only); a re-routed entry point changes these proof obligations and the named rows aim the run. c09_history proves that in every history (constructors, any copy-on-write method, CloneFrom of both flavours in both directions, the six entry points called in any order any number of times) every entry point answers what Parse answers on the schema's current configuration, for any implementation whose per-schema state is Faithful; the pinned code is Faithful, a memoised flag copied by CloneFrom is not (memoising_stale_witness). The model is tied to /repo on String()/StringPtr() schemas with random check chains and modifier suffixes (all six entry points predicted), on histories over families of string schemas (copyAll CloneFrom) and of Int()/IntPtr() schemas (keepChecks CloneFrom) run through the Lean history machine, and on every schema type of the table the six entry points are compared with each other in the harness on well-typed inputs (strict pair) and on inputs of any kind (ParseAny, MustParse, MustParseAny; the recovered panic value is rendered as the error it must equal), on cold schemas and after histories whose derivation steps are found by reflection; a never-parsed twin separates history-induced disagreements from those of the configuration. Frame lines check by reflection that no field of core.ZodTypeInternals changes across a parse and that a derived schema's internals do not depend on earlier parses. Structure fingerprints of the 23 transcribed Go functions aim the run when one of them is edited.",
+   note="Trusted: Lean kernel; axioms propext/Classical.choice/Quot.sound at most; harness + comparer; the go/ast classification of method bodies (engine / fwd / must / inherit / own). The type-specific parts of the complex path (validator, pointer pre-pass of the checks, checks on a default or on nil, transform) are parameters of the model, so its theorem holds for every instantiation but says nothing about what a validator does; for the one type whose pair is the bare complex engine pair (ZodSlice) the result conversion of Parse is transcribed (sliceConv) and proved equal to ParseComplexStrict's. The Faithful hypotheses of c09_history are tied to the code by the frame observation. Type-local StrictParse implementations (16 types) are judged by the statement directly (entry points must agree); their deviations are listed as known findings by (type, Parse outcome class, StrictParse outcome class) and pending/C09-strict-*.diff route 15 of them through Parse (suite green, all classes but StringBool's disappear). Pointer identity of results is C15's business and not compared here.",
    design="DESIGN.md §5 C09")
 
 MODULES = ["Gozod.Proofs.C09", "Gozod.Proofs.C09Complex", "Gozod.Proofs.C09Table"]
@@ -13,10 +13,10 @@ THEOREMS = ["Gozod.C09." + t for t in [
     # complex engine path, legacy witnesses, wrappers (Proofs/C09Complex.lean)
     "c09_complex_strict_eq_parse", "sliceConv_ok", "c09_slice_strict_eq_parse", "adapt_preserves", "c09_complex_same_verdict_value",
     "adapt_shape", "adapt_idem", "handleNilComplex_handled", "legacy_fast_path_witness", "legacy_nil_path_witness",
-    "legacy_validation_only_witness", "legacy_fallback_witness", "legacy_not_agreeing",
+    "legacy_validation_only_witness", "legacy_fallback_witness", "legacy_validatePointer_bypass", "legacy_not_agreeing",
     "c09_parseAny_eq_parse_all", "c09_must_returns_or_panics", "must_returned_iff", "must_panicked_iff", "must_congr",
     # the entry-point table regenerated from types/*.go (Proofs/C09Table.lean)
-    "c09_table_as_expected", "c09_table_wrappers", "c09_table_covered", "c09_table_nonempty",
+    "c09_table_as_expected", "c09_table_wrappers", "c09_table_covered", "c09_table_via_parse", "c09_table_type_local", "c09_table_nonempty",
     "checked_ptr_irrelevant", "checked_no_checks", "c09_strict_eq_parse", "c09_parseAny_eq_parse",
     "strictParseWith_sound", "strictFast_checks_empty", "run_ok_of_read_only", "pinned_faithful", "runEP_eq_parse", "step_spec",
     "c09_history", "c09_history_pinned", "c09_history_entrypoints_agree", "c09_parses_do_not_matter",
@@ -107,16 +107,37 @@ def _run(res):
                       + off.replace(" ; ", "\n  ") + "\n(the run below is aimed at: %s)\n\n" % ", ".join(aimed) + detail)
             res.notes.append("entry-point table offenders: " + off)
         C.tie_broken(res, "proof Gozod.Proofs.C09", detail)
+    # structure fingerprints of the transcribed Go functions: a changed function aims the run at the types that reach it
+    changed = C.fingerprint(res, "C09")
+    for k, lean_def, kind, detail in changed:
+        if kind == "missing":
+            C.tie_broken(res, "fingerprint " + k, "the Go function %s mirrors is gone or renamed" % lean_def)
+        if k.startswith("types/slice.go") or "Complex" in k or "validatePointer" in k or "validateValue" in k:
+            aimed = sorted(set(aimed) | {"ZodSlice"})
+        if k.startswith("types/integer.go"):
+            aimed = sorted(set(aimed) | {"ZodIntegerTyped"})
+        if k.startswith("types/string.go") or "Primitive" in k or "processModifiersCore" in k:
+            aimed = sorted(set(aimed) | {"ZodString", "ZodIntegerTyped"})
+    if changed:
+        res.notes.append("modelled Go functions edited since the expectation was recorded: " + "; ".join("%s (%s)" % (c[0], c[2]) for c in changed) + "; run aimed at " + ", ".join(aimed))
     data, err = C.correspond(res, "C09", extra_args=(["-aim", ",".join(aimed)] if aimed else []), feed_impl=True)
     if data is None:
         C.tie_broken(res, "correspondence C09/ParsePrimitiveStrict", err)
         return res.finish()
+    # every schema type of the regenerated table must be reached by the run (a new type nobody exercises is a broken tie)
+    dist = data[3].get("histogram", {})
+    table_types = sorted(set(re.findall(r'⟨"(Zod[A-Za-z0-9]+)", "[^"]*", "Parse",', open(GEN_EP).read())))
+    unreached = [t for t in table_types if not dist.get("gotype:" + t)]
+    res.coverage["schema_types_in_table"] = len(table_types)
+    res.coverage["schema_types_reached"] = len(table_types) - len(unreached)
+    if unreached:
+        C.tie_broken(res, "coverage C09/entry-point table", "schema types of Gen/EntryPoints.lean no generated case reaches: " + ", ".join(unreached))
     C.decide(res, "C09", data, key, "C09/ParsePrimitive+ParsePrimitiveStrict", describe=describe)
     res.coverage["rule"] = ("(A) String()/StringPtr() with 0-5 random checks (built-ins, Trim/ToLower/ToUpper/custom overwrites, refinements with 35% abort) and 0-3 random modifiers "
         "(Optional/Nilable/Nullish/NonOptional/Default/DefaultFunc/Prefault/PrefaultFunc) on inputs nil, typed nil, value, pointer, foreign kinds; "
-        "(B) 21 other schema types, bare / with own checks / with a refinement, with 0-3 random modifiers applied by reflection on every sample input convertible to the StrictParse parameter type plus its nil; "
+        "(B) every other schema type of the entry-point table (57 constructors), bare / with own checks / with a refinement / with an identity Overwrite on top, with 0-3 random modifiers applied by reflection, on every sample input convertible to the StrictParse parameter type plus its nil, and on ill-typed inputs of ten kinds for ParseAny / MustParse / MustParseAny; types the table or a fingerprint reports as changed get 12x the schemas; "
         "(C) histories: two relatives A, B of one type; 1-4 warm-up calls of random entry points (half of them strict) on random heap cells with value / nil inputs; one or two derivation routes "
         "(the cell itself, a method discovered by reflection on a warm cell - modifiers, checks, accessors, And/Or wrappers -, CloneFrom between two cells in either direction, a fresh bare schema receiving a warm one); "
-        "then the six entry points on the target in two random orders, and Parse / StrictParse on never-parsed twins when the warm ones disagree; one frame line per history. distinct = distinct op lines.")
+        "then the six entry points on the target in two random orders, and Parse / StrictParse on never-parsed twins when the warm ones disagree; one frame line per history; (D) the same histories over Int()/IntPtr() with Min/Max/Overwrite checks shipped in unary so that the string environment of the Lean machine predicts them with the keepChecks CloneFrom. distinct = distinct op lines.")
     res.assumptions += ["ASCII strings", "result values compared after dereferencing (pointer identity is C15)"]
     return res.finish()
